@@ -8,7 +8,7 @@ VARIABLES l, viol, cover
 tvars == <<c, l, viol, cover>>
 Line == TraceLog[l]
 Range(s) == {s[i] : i \in 1..Len(s)}
-AbsCfg(e) == [auth |-> Range(e.auth), tlsDisabled |-> e.tlsDisabled, tokenAuth |-> e.tokenAuth, signedSel |-> e.signedSel,
+AbsCfg(e) == [auth |-> Range(e.auth), tlsDisabled |-> e.tlsDisabled, tokenAuth |-> e.tokenAuth, sel |-> e.sel,
               queryKey |-> e.queryKey, keytab |-> e.keytab, nhosts |-> e.nhosts, spell |-> e.spell]
 AbsEff(x) == [tlsOff |-> x.tlsOff, auth |-> Range(x.auth), tokenAuth |-> x.tokenAuth, signedNoKey |-> x.signedNoKey]
 Bad(e) ==
@@ -16,7 +16,8 @@ Bad(e) ==
          LET cf == AbsCfg(e.cfg) IN
          \* the refusal table is stated for the documented spellings; for any spelling, what runs must be safe
          (IF cf.spell = "canon" /\ Refuse(cf) /\ e.outcome # "refused" THEN {"G_C18_UnsafeRefused"} ELSE {})
-         \cup (IF cf.spell = "canon" /\ ~Refuse(cf) /\ e.outcome # "listening" THEN {"G_C18_ValidStarts"} ELSE {})
+         \* (a selection word that is none of the documented ones may be refused as well)
+         \cup (IF cf.spell = "canon" /\ cf.sel # "other" /\ ~Refuse(cf) /\ e.outcome # "listening" THEN {"G_C18_ValidStarts"} ELSE {})
          \cup (IF e.outcome = "listening" /\ e.probed /\ Unsafe(AbsEff(e.eff)) THEN {"G_C18_RunningIsSafe"} ELSE {})
     [] e.ev = "cross" ->
          \* a token / cookie made by instance A is presented to instance B started from the same configuration
@@ -25,8 +26,8 @@ Bad(e) ==
          \cup (IF KeyKept(e.len) /\ ~e.acceptedOnOther THEN {"G_C18_ConfiguredKeyUsed"} ELSE {})
          \cup (IF ~e.acceptedOnSelf THEN {"G_C18_OwnTokensValid"} ELSE {})
     [] OTHER -> {"G_UnknownEvent"}
-Cell(e) == IF e.ev = "start" THEN <<"start", e.src, e.outcome, e.cfg.spell>> ELSE <<"cross", e.key, e.len>>
-TInit == l = 1 /\ viol = {} /\ cover = {} /\ c = [auth |-> {"openid"}, tlsDisabled |-> FALSE, tokenAuth |-> TRUE, signedSel |-> FALSE, queryKey |-> FALSE, keytab |-> FALSE, nhosts |-> 1, spell |-> "canon"]
+Cell(e) == IF e.ev = "start" THEN <<"start", e.src, e.outcome, e.cfg.spell, e.cfg.sel>> ELSE <<"cross", e.key, e.len>>
+TInit == l = 1 /\ viol = {} /\ cover = {} /\ c = [auth |-> {"openid"}, tlsDisabled |-> FALSE, tokenAuth |-> TRUE, sel |-> "roundrobin", queryKey |-> FALSE, keytab |-> FALSE, nhosts |-> 1, spell |-> "canon"]
 TNext == /\ l <= Len(TraceLog)
          /\ viol' = viol \cup {<<l, g, Line.ev, Line.cls>> : g \in Bad(Line)}
          /\ cover' = cover \cup {Cell(Line)}
